@@ -94,10 +94,11 @@ def check_known(kf: dict, r: dict, verifier) -> tuple[bool, str]:
         ck = ("excl", key, r["func"])
         if ck not in _kf_cache:
             wc = verifier.reg.witness_classes[excl]
-            res2, _ = verifier.verify_function(r["func"], extra_requires=[lambda c: wc(c, False)])
+            res2, meta2 = verifier.verify_function(r["func"], extra_requires=[lambda c: wc(c, False)], only_labels=set(kf["obligations"]))
             _kf_cache[ck] = {x.label + "|" + x.path: x.status for x in res2}
+            _kf_cache[ck]["__ran__"] = PROVED if (meta2.get("error") is None and meta2.get("paths", 0) > 0) else None
         # a path that no longer exists with the witness class excluded is infeasible outside the class: covered
-        st = _kf_cache[ck].get(r["label"] + "|" + r["path"], PROVED if _kf_cache[ck] else None)
+        st = _kf_cache[ck].get(r["label"] + "|" + r["path"], _kf_cache[ck]["__ran__"])
         if st != PROVED:
             return False, f"known finding {key}: with its witness class ({excl}) excluded the obligation is still not discharged ({st}): a different failure"
     return True, ""
